@@ -503,6 +503,7 @@ class Router:
         self,
         cbf_key: tuple,
         full_packet: bytes,
+        token: object | None = None,
     ) -> None:
         """
         §F.3 timer expiry callback: re-broadcast the buffered GBC/GAC packet.
@@ -511,8 +512,12 @@ class Router:
         removed from the CBF buffer and sent to the LL as BCAST.
         """
         with self._cbf_lock:
-            if cbf_key not in self._cbf_buffer:
+            timer = self._cbf_buffer.get(cbf_key)
+            if timer is None:
                 return  # duplicate already arrived and discarded us
+            if token is not None and getattr(timer, "cbf_token", token) is not token:
+                # The entry belongs to a later reception of the same packet: this copy was discarded meanwhile.
+                return
             del self._cbf_buffer[cbf_key]
         try:
             if self.link_layer:
@@ -584,12 +589,14 @@ class Router:
                 + gbc_extended_header.encode()
                 + packet
             )
+            token = object()
             timer = Timer(
                 timeout_ms / 1000.0,
                 self._cbf_timeout,
-                args=[cbf_key, full_packet],
+                args=[cbf_key, full_packet, token],
             )
             timer.daemon = True
+            timer.cbf_token = token  # lets the expiry tell its own buffered copy from a later one
             self._cbf_buffer[cbf_key] = timer
         timer.start()
         return True  # §F.3: return 0 (packet buffered)
